@@ -137,7 +137,7 @@ def rand_exec(rng, nops, maxnodes=40):
         elif k < 0.92:
             ops.append("in_appstr %d x%s" % (i, hx(rng.choice([b"1", b"0", b".5", b"a"]))))
         elif k < 0.99:
-            ops.append("get %d %d" % (i, j))
+            ops.append("%s %d %d" % (rng.choice(["get", "getc"]), i, j))
             size[i] = max(size[i], size[j])
         else:
             ops.append("smoke %d" % rng.randint(0, 11))
@@ -186,7 +186,11 @@ def label_to_op(name, args):
     op, i, j, x, key = args
     if op in ("ctor", "assign"):
         return "%s %d %s" % (op, i, lit_text(tree(x)))
-    if op in ("copy", "asg", "swap", "get", "applistv", "apparrv"):
+    if op == "get":
+        global _getflip
+        _getflip = not globals().get("_getflip", False)      # every other get goes through the container-valued assignment (getc)
+        return "%s %d %d" % ("getc" if _getflip else "get", i, j)
+    if op in ("copy", "asg", "swap", "applistv", "apparrv"):
         return "%s %d %d" % (op, i, j)
     if op == "mapsetv":
         return "%s %d %d x%s" % (op, i, j, hx(key))
